@@ -325,7 +325,7 @@ Definition members_of (obs : list aobs) : list acct :=
 Record sstate := mkS {
   s_gens : list rid;              (* observed key generations, oldest first *)
   s_log : list cipher;            (* ciphertexts of accepted records *)
-  s_allow : amap;                 (* account -> generations that existed at a record boundary at which it held a permission *)
+  s_allow : amap;                 (* account -> generations that existed at a record boundary at which it held a permission, or at a content that admitted it *)
   s_allow_inv : amap;             (* invite key -> generations that existed while the invite was live *)
   s_members : list acct;
   s_open : list (rid * N);
@@ -350,13 +350,38 @@ Definition acct_ok (gens : list rid) (log : list cipher) (allow : amap) (o : aob
   match o_view o with Some v => subsetN v al | None => true end &&
   match o_view_nv o with Some v => subsetN v al | None => true end.
 
-Definition spec_step (ss : sstate) (st : step) : bool * sstate :=
+(* identities a content admits (a key is delivered to them) *)
+Definition admits (c : content) : list acct :=
+  match c with
+  | CAccountsAdd l => map fst l
+  | CRequestAccept id _ _ => [id]
+  | CInviteJoin id _ _ _ _ _ _ => [id]
+  | _ => []
+  end.
+
+(* CONTENT boundaries inside one accepted record: an identity admitted by a content may know the generations that exist
+   at that content — the generations before the record, plus the record's own generation once a rotation content of
+   the record has been passed (a record carries at most one rotation).  Without this an accepted record that admits an
+   account and removes it again would be judged at its END only, where the account holds nothing, although the
+   property lets it keep what was delivered while it was a member ([spec_C05_legacy], c05_model_satisfies_spec_legacy_refuted). *)
+Fixpoint admit_allow (gens_before gens_after : list rid) (rotated : bool) (cs : list kcontent) (m : amap) : amap :=
+  match cs with
+  | [] => m
+  | ck :: rest =>
+      let rotated' := rotated || match is_rot (fst ck) with Some _ => true | None => false end in
+      let g := if rotated' then gens_after else gens_before in
+      admit_allow gens_before gens_after rotated' rest (fold_left (fun m a => add_allow a g m) (admits (fst ck)) m)
+  end.
+
+(* [content_level = false] is the predicate as it was first written (record boundaries only) *)
+Definition spec_step_gen (content_level : bool) (ss : sstate) (st : step) : bool * sstate :=
   if negb (st_ok st) then (true, ss)
   else
     let gens := if memN (st_cur st) (s_gens ss) then s_gens ss else s_gens ss ++ [st_cur st] in
     let log := s_log ss ++ flat_map (fun ck => ciphers_of (st_id st) (fst ck) (snd ck)) (st_cs st) in
     let members := members_of (st_obs st) in
-    let allow := fold_left (fun m a => add_allow a gens m) members (s_allow ss) in
+    let allow0 := fold_left (fun m a => add_allow a gens m) members (s_allow ss) in
+    let allow := if content_level then admit_allow (s_gens ss) gens false (st_cs st) allow0 else allow0 in
     let invkeys := dedup (s_invkeys ss ++ map snd (st_open st)) in
     let allow_inv := fold_left (fun m k => add_allow k gens m) (map snd (st_open st)) (s_allow_inv ss) in
     let ok :=
@@ -367,16 +392,20 @@ Definition spec_step (ss : sstate) (st : step) : bool * sstate :=
       rot_exact (s_members ss) (s_open ss) [] (st_cs st) in
     (ok, mkS gens log allow allow_inv members (st_open st) invkeys).
 
-Fixpoint spec_steps (ss : sstate) (steps : list step) : bool :=
+Fixpoint spec_steps_gen (content_level : bool) (ss : sstate) (steps : list step) : bool :=
   match steps with
   | [] => true
-  | st :: rest => let '(ok, ss1) := spec_step ss st in ok && spec_steps ss1 rest
+  | st :: rest => let '(ok, ss1) := spec_step_gen content_level ss st in ok && spec_steps_gen content_level ss1 rest
   end.
 
 Definition sinit (owner : acct) (root : rid) : sstate :=
   mkS [root] [CAsym (PA owner) root] [(owner, [root])] [] [owner] [] [].
 
+Definition spec_step := spec_step_gen true.
+Definition spec_steps := spec_steps_gen true.
 Definition spec_C05 (owner : acct) (root : rid) (steps : list step) : bool := spec_steps (sinit owner root) steps.
+Definition spec_C05_legacy (owner : acct) (root : rid) (steps : list step) : bool :=
+  spec_steps_gen false (sinit owner root) steps.
 
 (* ------------------------------------------------------------------------------------------ encrypted tree content *)
 (* changebuilder.go Build / objecttree.go prepareBuilderContent + IterateRoot, symbolically.  The per-tree key is
@@ -422,13 +451,6 @@ Definition tree_model_ok (t : tobs) : bool :=
    checks recipient identities.  [honest_content] says: the fields contain what the client record builder puts there
    (the current key for a delivery, the new key for every rotation recipient, the previous key under the new one), a
    rotation's record id is a new generation id, and a request is not "accepted" with permission None. *)
-Definition admits (c : content) : list acct :=
-  match c with
-  | CAccountsAdd l => map fst l
-  | CRequestAccept id _ _ => [id]
-  | CInviteJoin id _ _ _ _ _ _ => [id]
-  | _ => []
-  end.
 Definition ogs_eqb : list (option rid) -> list (option rid) -> bool := list_eqb (opt_eqb N.eqb).
 Definition kpay_eqb (a b : kpay) : bool :=
   match a, b with
